@@ -128,3 +128,92 @@ Proof.
   - exact Hb.
 Qed.
 End Multi.
+
+(* ---------- the thread-local code of a (non-rechunking) saver over a segment of the stream ---------- *)
+Section SaverLoop.
+Variable N : nat.
+Variable nt : net.
+Variable tid : nat.
+Variable fpo : option nat.      (* the position at which this saver fails, if it is the failing thread *)
+Variable c : nat.
+Hypothesis Hf : forall k, fault_at nt tid k = match fpo with Some fp => if fp =? k then Some c else None | None => None end.
+
+(* what Saver.save_from does with the messages numbered a .. a+len-1 when it has saved chunks 0 .. a-1:
+   (A) it saves them all and goes back to read; (B) saving chunk fp fails: got_exception is set, the exception is thrown
+   into the mailbox generator; (C) the end marker: the saver closes normally holding all N chunks; (D) the end marker, and
+   close() itself fails: closed with the exception recorded, got_exception set (nothing is killed — the final saver check
+   of the processor reports it) *)
+Lemma saver_loop len : forall a t,
+  t_kind t = KSaver false -> t_fi t < length (t_rd t) -> t_cnt t = a -> t_rows t = zs a -> a + len <= S N -> a <= N ->
+  (forall fp, fpo = Some fp -> a <= fp) ->
+  let t' := sink_loop nt tid t (msgs N a len) in
+  (a + len <= N /\ t_pc t' = PRead /\ t_cnt t' = a + len /\ t_rows t' = zs (a + len) /\
+   cur_r t' = r_set_buf (cur_r t) [] /\ t_got t' = t_got t /\ t_closed t' = t_closed t /\ t_excrec t' = t_excrec t /\
+   (forall fp, fpo = Some fp -> a + len <= fp)) \/
+  (exists fp, fpo = Some fp /\ fp < N /\ fp < a + len /\ t_pc t' = PKillIn (EOrig c) /\ t_got t' = Some c /\
+              t_rows t' = zs fp) \/
+  (a + len = S N /\ fpo <> Some N /\ t_pc t' = PDone /\ t_closed t' = true /\ t_excrec t' = t_excrec t /\
+   t_rows t' = zs N /\ t_got t' = t_got t) \/
+  (a + len = S N /\ fpo = Some N /\ t_pc t' = PDead (EOrig c) /\ t_closed t' = true /\ t_excrec t' = true /\
+   t_got t' = Some c /\ t_rows t' = zs N).
+Proof.
+  induction len as [|l IH]; intros a t Hk Hfi Hc Hrw Hb HaN0 Hfp.
+  - rewrite msgs_0. cbn [sink_loop]. left. cbn. rewrite Nat.add_0_r.
+    repeat split; auto.
+    + unfold cur_r, set_cur_r. cbn. apply nth_upd_eq. auto.
+  - destruct (Nat.eq_dec a N) as [EaN | EaN].
+    { (* the end marker *)
+      rewrite EaN in *. rewrite msgs_S_stop. cbn [sink_loop]. unfold sink_stop. cbn [t_kind set_cur_r set_rd t_cnt].
+      rewrite Hk, Hc, Hf. destruct fpo as [fp|] eqn:Efp.
+      - destruct (fp =? N) eqn:E.
+        + apply Nat.eqb_eq in E. subst fp. right. right. right. cbn. repeat split; auto. lia.
+        + apply Nat.eqb_neq in E. right. right. left. cbn. repeat split; auto; try lia. congruence.
+      - right. right. left. cbn. repeat split; auto; try lia. discriminate. }
+    assert (HaN : a < N) by lia.
+    rewrite msgs_S_data by lia. cbn [sink_loop].
+    set (tb := set_cur_r t (r_set_buf (cur_r t) (msgs N (S a) l))).
+    assert (Hcur : cur_r tb = r_set_buf (cur_r t) (msgs N (S a) l)).
+    { unfold tb, cur_r, set_cur_r. cbn. apply nth_upd_eq. auto. }
+    assert (Hsd : sink_data nt tid tb (Z.of_nat a) =
+                  match fault_at nt tid a with
+                  | Some c' => (set_pc (set_got tb (Some c')) (PKillIn (EOrig c')), false)
+                  | None => (add_row tb (Z.of_nat a), true)
+                  end).
+    { unfold sink_data. replace (t_kind tb) with (KSaver false) by (symmetry; exact Hk).
+      replace (t_cnt tb) with a by (symmetry; exact Hc). reflexivity. }
+    rewrite Hsd, Hf.
+    assert (Hgo : (forall fp, fpo = Some fp -> S a <= fp) ->
+      let t' := sink_loop nt tid (add_row tb (Z.of_nat a)) (msgs N (S a) l) in
+      (a + S l <= N /\ t_pc t' = PRead /\ t_cnt t' = a + S l /\ t_rows t' = zs (a + S l) /\
+       cur_r t' = r_set_buf (cur_r t) [] /\ t_got t' = t_got t /\ t_closed t' = t_closed t /\ t_excrec t' = t_excrec t /\
+       (forall fp, fpo = Some fp -> a + S l <= fp)) \/
+      (exists fp, fpo = Some fp /\ fp < N /\ fp < a + S l /\ t_pc t' = PKillIn (EOrig c) /\ t_got t' = Some c /\
+                  t_rows t' = zs fp) \/
+      (a + S l = S N /\ fpo <> Some N /\ t_pc t' = PDone /\ t_closed t' = true /\ t_excrec t' = t_excrec t /\
+       t_rows t' = zs N /\ t_got t' = t_got t) \/
+      (a + S l = S N /\ fpo = Some N /\ t_pc t' = PDead (EOrig c) /\ t_closed t' = true /\ t_excrec t' = true /\
+       t_got t' = Some c /\ t_rows t' = zs N)).
+    { intros Hfp'.
+      assert (A1 : t_kind (add_row tb (Z.of_nat a)) = KSaver false) by exact Hk.
+      assert (A2 : t_fi (add_row tb (Z.of_nat a)) < length (t_rd (add_row tb (Z.of_nat a)))).
+      { cbn. rewrite upd_length. auto. }
+      assert (A3 : t_cnt (add_row tb (Z.of_nat a)) = S a) by (cbn; rewrite Hc; reflexivity).
+      assert (A3' : t_rows (add_row tb (Z.of_nat a)) = zs (S a)).
+      { change (t_rows (add_row tb (Z.of_nat a))) with (t_rows t ++ [Z.of_nat a]). rewrite Hrw. symmetry. apply zs_S. }
+      assert (A4 : S a + l <= S N) by lia.
+      replace (a + S l) with (S a + l) by lia.
+      assert (A4' : S a <= N) by lia.
+      destruct (IH (S a) (add_row tb (Z.of_nat a)) A1 A2 A3 A3' A4 A4' Hfp')
+        as [(H1 & H2 & H3 & H4 & H5 & H6 & H7 & H8 & H9) | [H | [H | H]]].
+      - left. change (cur_r (add_row tb (Z.of_nat a))) with (cur_r tb) in H5. rewrite Hcur in H5.
+        repeat split; auto.
+      - right. left. exact H.
+      - right. right. left. exact H.
+      - right. right. right. exact H. }
+    destruct fpo as [fp|] eqn:Efp.
+    + destruct (fp =? a) eqn:E.
+      * apply Nat.eqb_eq in E. subst fp. right. left. exists a. cbn. repeat split; auto; try lia.
+      * apply Nat.eqb_neq in E. apply Hgo. intros fp' Ef. inversion Ef; subst. specialize (Hfp fp' eq_refl). lia.
+    + apply Hgo. intros fp' Ef. discriminate.
+Qed.
+End SaverLoop.
